@@ -4,6 +4,9 @@
 set -u
 P="$1"; shift
 cd /verif
+# replay files written while a seeded defect is applied must never be mistaken for findings of the real tree
+rm -rf /dev/shm/replays.saved; [ -d replays ] && mv replays /dev/shm/replays.saved
+trap 'rm -rf /verif/replays; [ -d /dev/shm/replays.saved ] && mv /dev/shm/replays.saved /verif/replays' EXIT
 if ! git -C /repo apply --check "$P" 2>/dev/null; then echo "patch does not apply"; exit 2; fi
 git -C /repo apply "$P"
 for id in "$@"; do
